@@ -60,7 +60,8 @@ Fixpoint cpals_loop (rem k : nat) (s : St) (fit : F) (last : option (nat * F)) :
   match rem with
   | 0 =>                                      (* range exhausted: fall out of the for statement *)
       match last with
-      | None => None                          (* M, iteration, normresidual unbound: UnboundLocalError (A-30) *)
+      | None => None                          (* no iteration ran and nothing was bound before the loop: unreachable from
+                                                 cpals_run (the `if maxiters == 0:` block binds them), see cpals_run_total *)
       | Some (it, nr) => Some (mkLoopout s it nr fit [] [])
       end
   | S rem' =>
@@ -83,9 +84,20 @@ Fixpoint cpals_loop (rem k : nat) (s : St) (fit : F) (last : option (nat * F)) :
 Definition cpals_finish (dofix : bool) (s : St) : St :=
   (if dofix then fixsigns else @id St) (arrange s).
 
+(* state of the locals (fit, iteration/normresidual) when the `for` statement is entered:
+     if maxiters == 0:                      # no sweep is executed: report the initial guess itself
+         iteration = 0;  M = ktensor(U, init.weights.copy())
+         normresidual, fit = <innerprod formula on M>          (cp_als.py, block before the main loop) *)
+Definition cpals_entry (s0 : St) (maxiters : nat) : F * option (nat * F) :=
+  match maxiters with
+  | 0 => (snd (fit_innerprod s0), Some (0, fst (fit_innerprod s0)))
+  | S _ => (fit0, None)
+  end.
+
 Definition cpals_run (s0 : St) (maxiters : nat) (dofix : bool) : option result :=
   let hdr := if 0 <? printitn then [EvHeader] else [] in              (* if printitn > 0: print("CP_ALS:") *)
-  match cpals_loop maxiters 0 s0 fit0 None with
+  let en := cpals_entry s0 maxiters in
+  match cpals_loop maxiters 0 s0 (fst en) (snd en) with
   | None => None
   | Some o =>
       let m := cpals_finish dofix (lo_state o) in
@@ -94,17 +106,6 @@ Definition cpals_run (s0 : St) (maxiters : nat) (dofix : bool) : option result :
            Some (mkResult m (lo_iter o) (fst nf) (snd nf)
                           (hdr ++ lo_log o ++ [EvFinal (snd nf)]) (lo_trace o))
       else Some (mkResult m (lo_iter o) (lo_nr o) (lo_fit o) (hdr ++ lo_log o) (lo_trace o))
-  end.
-
-(* REPAIRED behaviour for maxiters = 0 (what a fix of A-30 would do): no sweep, the start model is
-   arranged / sign-fixed, (normresidual, fit) from innerprod, iters = 0.  Otherwise = cpals_run. *)
-Definition cpals_run_spec (s0 : St) (maxiters : nat) (dofix : bool) : option result :=
-  match maxiters with
-  | 0 => let m := cpals_finish dofix s0 in
-         let nf := fit_innerprod m in
-         Some (mkResult m 0 (fst nf) (snd nf)
-                        (if 0 <? printitn then [EvHeader; EvFinal (snd nf)] else []) [])
-  | S _ => cpals_run s0 maxiters dofix
   end.
 
 End Run.
@@ -164,7 +165,6 @@ Definition ex_fit (s : Z) : Z * Z := (s, 100 - s).
 Definition ex_fit_ip (s : Z) : Z * Z := (s + 1000, 1100 - s).   (* deliberately different: shows A-43 *)
 Definition ex_lt (a b tol : Z) : bool := Z.abs (a - b) <? tol.
 Definition ex_run := cpals_run ex_sweep ex_fit ex_fit_ip ex_lt 0 (fun s => s + 10000) (fun s => - s).
-Definition ex_run_spec := cpals_run_spec ex_sweep ex_fit ex_fit_ip ex_lt 0 (fun s => s + 10000) (fun s => - s).
 
 (* stops early by the rule: fits 60, 79, 90, 94 (|90-94| < 5) -> iters = 3 although maxiters = 10 *)
 Example ex_early :
@@ -193,16 +193,15 @@ Example ex_never_at_zero :
             [EvHeader; EvIter 0 60 0; EvIter 1 79 60; EvFinal (-8921)] [60; 79]).
 Proof. vm_compute. reflexivity. Qed.
 
-(* maxiters = 0: the real code dies on unbound locals (A-30); the repaired spec returns the start model *)
-Example ex_crash : ex_run 5 0%nat 80 0%nat false = None.
+(* maxiters = 0 (repaired code, fix of A-30): no sweep; the start model is arranged / sign-fixed and reported with the
+   innerprod formula — evaluated on the start itself when silent, on the arranged model when printing *)
+Example ex_zero_silent :
+  ex_run 5 0%nat 80 0%nat false = Some (mkResult 10080 0%nat 1080 1020 [] []).
 Proof. vm_compute. reflexivity. Qed.
 
-Example ex_crash_print : ex_run 5 1%nat 80 0%nat true = None.
-Proof. vm_compute. reflexivity. Qed.
-
-Example ex_spec_zero :
-  ex_run_spec 5 1%nat 80 0%nat false
-  = Some (mkResult 10080 0%nat 11080 (-8980) [EvHeader; EvFinal (-8980)] []).
+Example ex_zero_print :
+  ex_run 5 1%nat 80 0%nat true
+  = Some (mkResult (-10080) 0%nat (-9080) 11180 [EvHeader; EvFinal 11180] []).
 Proof. vm_compute. reflexivity. Qed.
 
 End C09LoopExamples.
